@@ -321,7 +321,11 @@ def make_builtins(eng):
     B["str"] = VFunc("str", lambda args, kwargs, st, eng: VStr(t=fresh(STR, "str").t))
     for n in ("int", "float", "bool", "str", "list", "tuple"):
         B[n].name = n
-    B["dict"] = VFunc("dict", lambda args, kwargs, st, eng: (_ for _ in ()).throw(Unsupported("dict()")))
+    def _dict(args, kwargs, st, eng):
+        if args:
+            raise Unsupported("dict(<positional>)")
+        return st.alloc(HObj("builtins.dict", {"entries": VTuple([VTuple([VStr(k), v]) for k, v in kwargs.items()])}))
+    B["dict"] = VFunc("dict", _dict)
     B["True"], B["False"], B["None"] = VBool(True), VBool(False), NONEV
     return B
 
